@@ -823,7 +823,117 @@ class DisplayExact(Contract):
         return out
 
 
+# ------------------------------------------------------------------------------------------------ build_display_name_mapping
+meta_numvalues = z3.Function("meta_num_values", Val, Int)
+meta_display = z3.Function("meta_display_name", Val, Val)
+meta_nnames = z3.Function("meta_n_value_names", Val, Int)
+meta_vname = z3.Function("meta_value_name", Val, Int, Key)
+is_str = z3.Function("is_str", Val, Bool)
+
+
+class FeatureMeta(ModelObj):
+    """a feature's metadata dict: .get("num_values", 1), .get("value_names", []), .get("display_name")"""
+
+    def __init__(self, e):
+        self.e = e
+
+    def do_get(self, I, k, default=None):
+        if k == "num_values":
+            return Sym(meta_numvalues(self.e))
+        if k == "value_names":
+            e = self.e
+            return SymList(z3.If(meta_nnames(e) >= 0, meta_nnames(e), 0), lambda j: Sym(meta_vname(e, j)), elem_sort=Key)
+        if k == "display_name":
+            return Sym(meta_display(self.e))
+        if k == "feature_type":
+            return Sym(meta_ftype(self.e))
+        raise Unsupported(f"feature metadata key {k!r}")
+
+
+def _val_isinstance_str(I, args, kw):
+    v, tn = args
+    if tn == "str":
+        return is_str(v.e)
+    raise Unsupported(f"isinstance(opaque, {tn})")
+
+
+class MutableDisplayDict(DisplayDict):
+    def m_setitem(self, I, name, v):
+        if not (isinstance(v, tuple) and len(v) == 2):
+            raise Unsupported("display mapping value")
+        ne = to_z3(name, Key) if not (isinstance(name, Sym) and name.sort() == Val) else kv_(name.e)
+        self.dom = z3.Store(self.dom, ne, z3.BoolVal(True))
+        self.dk = z3.Store(self.dk, ne, to_z3(v[0], Key))
+        self.di = z3.Store(self.di, ne, to_z3(v[1], Int))
+        self._enum = None
+
+
+def kv_(e):
+    from pyvc.terms import kv
+    return kv(e)
+
+
+class BuildLoopOuter(LoopSpec):
+    props = ("C17",)
+
+    def __init__(self, feats):
+        self.feats = feats
+
+    def enter(self, I, fr, it):
+        if not isinstance(fr.env["display_name_to_key"], MutableDisplayDict):
+            d = MutableDisplayDict(I.ctx)
+            d.dom = z3.K(Key, z3.BoolVal(False))
+            fr.env["display_name_to_key"] = d
+
+    def havoc(self, I, fr, it, i, assigned):
+        ctx = I.ctx
+        for nm in ("feature_key", "feature", "value_names", "idx", "value_name", "display_name"):
+            fr.env.pop(nm, None)
+        d = fr.env["display_name_to_key"]
+        d.dom, d.dk, d.di = ctx.fresh("D_dom", KeySet), ctx.fresh("D_key", z3.ArraySort(Key, Key)), ctx.fresh("D_idx", z3.ArraySort(Key, Int))
+
+    def inv(self, I, fr, it, i):
+        d = fr.env["display_name_to_key"]
+        return [("every-entry-points-to-a-key-of-the-given-features", forall([c_], IMP(S_(d.dom, c_), S_(self.feats.dom, S_(d.dk, c_)))))]
+
+
+class BuildLoopInner(BuildLoopOuter):
+    def enter(self, I, fr, it):
+        pass
+
+    def havoc(self, I, fr, it, i, assigned):
+        ctx = I.ctx
+        for nm in ("idx", "value_name"):
+            fr.env.pop(nm, None)
+        d = fr.env["display_name_to_key"]
+        d.dom, d.dk, d.di = ctx.fresh("D_dom", KeySet), ctx.fresh("D_key", z3.ArraySort(Key, Key)), ctx.fresh("D_idx", z3.ArraySort(Key, Int))
+
+
+class BuildDisplay(Contract):
+    qualname = f"{NM}.build_display_name_mapping"
+    props = ("C17",)
+    ext = {"model.val_isinstance": _val_isinstance_str}
+
+    def run(self, I, cfg):
+        ctx = I.ctx
+        feats = SymDict.fresh(ctx, "features", Key, Val, wrap=lambda e: FeatureMeta(e))
+        ctx.ghost["key_terms"] = []
+        ctx.loopspecs[(self.qualname, 0)] = BuildLoopOuter(feats)
+        ctx.loopspecs[(self.qualname, 1)] = BuildLoopInner(feats)
+        out = call_real(I, self.qualname, [feats], {})
+        q = "build_display_name_mapping"
+        if out[0] != "return":
+            ctx.oblige(f"C17/{q}/no-exception", False, props=self.props, note=str(out[1]))
+            return out
+        d = out[1]
+        ok = isinstance(d, MutableDisplayDict) or (isinstance(d, (dict,)) and not d)
+        ctx.oblige(f"C17/{q}/ensures:returns-the-mapping", z3.BoolVal(ok), props=self.props)
+        if isinstance(d, MutableDisplayDict):
+            ctx.oblige(f"C17/{q}/ensures:every-display-name-points-to-a-key-of-the-given-features", forall([c_], IMP(S_(d.dom, c_), S_(feats.dom, S_(d.dk, c_)))), props=self.props)
+        return out
+
+
 def units():
     from pyvc.verify import Unit
     return [Unit(MatchStep("_match_exact"), {}), Unit(MatchStep("_match_fuzzy"), {}), Unit(MapRemaining(), {}),
-            Unit(Pipeline("infer_node_name_map"), {}), Unit(Pipeline("infer_edge_name_map"), {}), Unit(DisplayExact(), {}), Unit(DisplayExact("_match_display_names_fuzzy"), {})]
+            Unit(Pipeline("infer_node_name_map"), {}), Unit(Pipeline("infer_edge_name_map"), {}), Unit(DisplayExact(), {}), Unit(DisplayExact("_match_display_names_fuzzy"), {}), Unit(BuildDisplay(), {})]
